@@ -859,38 +859,29 @@ def features(rec: Rec):
     """Facts about a run used for the non-triviality rules and histograms."""
     multi = ooo = False
     nfail = nretry = 0
+    submitted, done = [], set()
     for st in rec.steps:
         ev = st["ev"]
+        if ev[0] in ("wait", "shutdown"):
+            nfail += sum(1 for _, o in ev[1] if o[0] == "err")
         if ev[0] == "wait":
-            if len(ev[1]) > 1:
-                multi = True
-            fids = [f for f, _ in ev[1]]
-            pend_before = None
-            nfail += sum(1 for _, o in ev[1] if o[0] == "err")
-            if fids and fids != sorted(fids):
-                ooo = True
-        if ev[0] == "shutdown":
-            nfail += sum(1 for _, o in ev[1] if o[0] == "err")
-    seen = set()
-    lowest_pending = 0
-    done = set()
-    for st in rec.steps:
-        if st["ev"][0] == "wait":
-            for f, _ in st["ev"][1]:
-                if any(g < f and g not in done for g in seen):
+            multi = multi or len(ev[1]) > 1
+            for f, _ in ev[1]:
+                # out of order: an earlier-submitted evaluation is still running when this one completes
+                if any(g < f and g not in done for g in submitted):
                     ooo = True
                 done.add(f)
         for a in st["acts"]:
             if a[0] == "submit":
-                if a[2] in [rec.ctx.sub_point[g] for g in seen]:
+                if any(rec.ctx.sub_point[g] == a[2] for g in submitted):
                     nretry += 1
-                seen.add(a[1])
+                submitted.append(a[1])
     last = rec.steps[-1]["snap"] if rec.steps else rec.first_snap
-    outstanding = any(st["snap"]["phase"] == "Stopping" for st in rec.steps)
-    late = any(st["ev"][0] == "shutdown" and st["ev"][1] for st in rec.steps)
-    cancelled = any(st["ev"][0] == "cancel" for st in rec.steps)
-    return {"multi": multi, "ooo": ooo, "nfail": nfail, "nretry": nretry, "outstanding": outstanding,
-            "late_result": late, "cancelled": cancelled, "why": (last["why"] or ("?",))[0],
+    return {"multi": multi, "ooo": ooo, "nfail": nfail, "nretry": nretry,
+            "outstanding": any(st["snap"]["phase"] == "Stopping" for st in rec.steps),
+            "late_result": any(st["ev"][0] == "shutdown" and st["ev"][1] for st in rec.steps),
+            "cancelled": any(st["ev"][0] == "cancel" for st in rec.steps),
+            "why": (last["why"] or ("?",))[0],
             "exhausted": any(n > rec.spec["retries"] for n in _fail_counts(rec).values())}
 
 
